@@ -341,32 +341,47 @@ func (e *CrashEngine) Execute(p *sim.Plan, keepLog bool) (res *sim.RunResult) {
 	type ccase struct {
 		k    int
 		torn string
+		ev   string // the mutation at index k of the reference run, normalised ...
+		occ  int    // ... and which of its occurrences it is
 	}
 	var cases []ccase
 	if _, pinned := p.Cfg["crash_k"]; pinned {
-		cases = []ccase{{p.CfgInt("crash_k", 0), p.CfgStr("torn", "")}}
+		cases = []ccase{{k: p.CfgInt("crash_k", 0), torn: p.CfgStr("torn", ""), ev: p.CfgStr("crash_ev", ""), occ: p.CfgInt("crash_occ", 0)}}
 	} else {
 		stride := 1
 		if M > 200 {
 			stride = (M + 199) / 200
 		}
 		for k := 0; k < M; k += stride {
-			cases = append(cases, ccase{k, ""})
+			cases = append(cases, ccase{k: k})
 			if k < len(trace) && strings.HasPrefix(trace[k], "fs.Write ") {
 				var name string
 				var n int
 				fmt.Sscanf(strings.TrimPrefix(trace[k], "fs.Write "), "%s %d bytes", &name, &n)
-				cases = append(cases, ccase{k, "new"})
+				cases = append(cases, ccase{k: k, torn: "new"})
 				if strings.HasPrefix(name, "tmp:") {
 					// clock values (1-2 digits) arrive in Go map order: same variants whatever the size
-					cases = append(cases, ccase{k, "prefix:1"})
+					cases = append(cases, ccase{k: k, torn: "prefix:1"})
 				} else {
 					// sizes of gob-encoded cache files vary by a byte between executions: relative cuts
 					if n >= 2 {
-						cases = append(cases, ccase{k, "prefix:1"})
+						cases = append(cases, ccase{k: k, torn: "prefix:1"})
 					}
 					if n >= 4 {
-						cases = append(cases, ccase{k, "prefix:half"}, ccase{k, "prefix:allbut1"})
+						cases = append(cases, ccase{k: k, torn: "prefix:half"}, ccase{k: k, torn: "prefix:allbut1"})
+					}
+				}
+			}
+		}
+	}
+	if _, pinned := p.Cfg["crash_k"]; !pinned {
+		// name every case by the event it stands for in the reference run
+		for i := range cases {
+			if k := cases[i].k; k < len(trace) {
+				cases[i].ev = sim.NormEvent(trace[k])
+				for j := 0; j <= k; j++ {
+					if sim.NormEvent(trace[j]) == cases[i].ev {
+						cases[i].occ++
 					}
 				}
 			}
@@ -385,6 +400,9 @@ func (e *CrashEngine) Execute(p *sim.Plan, keepLog bool) (res *sim.RunResult) {
 		}
 		rs.staged = map[string]bool{}
 		r.C.CrashAt = r.C.MutCount() + c.k
+		if c.ev != "" {
+			r.C.CrashEvent, r.C.CrashOcc = c.ev, c.occ
+		}
 		r.C.Torn = c.torn
 		errT := runTarget()
 		crashed := r.C.Crashed
@@ -397,7 +415,7 @@ func (e *CrashEngine) Execute(p *sim.Plan, keepLog bool) (res *sim.RunResult) {
 		if c.k < len(trace) {
 			what = trace[c.k]
 		}
-		pin := map[string]interface{}{"crash_k": c.k, "torn": c.torn}
+		pin := map[string]interface{}{"crash_k": c.k, "torn": c.torn, "crash_ev": c.ev, "crash_occ": c.occ}
 		viol := func(kind, format string, a ...interface{}) {
 			if x.viol[kind] {
 				return
